@@ -300,7 +300,9 @@ func (zzC04SafeSearch) CheckHost(_ context.Context, _ string, _ uint16) (res fil
 	return res, nil
 }
 
-func (zzC04SafeSearch) Update(_ context.Context, _ filtering.SafeSearchConfig) (err error) { return nil }
+func (zzC04SafeSearch) Update(_ context.Context, _ filtering.SafeSearchConfig) (err error) {
+	return nil
+}
 
 // zzC04Rig is a real Storage behind a real DNSFilter.
 type zzC04Rig struct {
@@ -469,11 +471,11 @@ type zzC04Chunk struct {
 }
 
 type zzC04Obs struct {
-	K   []int   `json:"k"`   // FindByName per name: 4*mask+fl, 0 = absent, -1 = foreign ids
-	Rng []int   `json:"rng"` // the same from RangeByName; one extra slot counts foreign names
-	Fi  []int   `json:"fi"`
-	Fa  []int   `json:"fa"`
-	Ap  [][]int `json:"ap"`
+	K   []int    `json:"k"`   // FindByName per name: 4*mask+fl, 0 = absent, -1 = foreign ids
+	Rng []int    `json:"rng"` // the same from RangeByName; one extra slot counts foreign names
+	Fi  []int    `json:"fi"`
+	Fa  []int    `json:"fa"`
+	Ap  [][]int  `json:"ap"`
 	Bad []string `json:"bad,omitempty"`
 }
 
@@ -557,8 +559,30 @@ func (rn *zzC04Runner) code(p *Persistent) (c int) {
 	return c
 }
 
-// step performs one labelled edge; out is 0 (accepted) or 1 (refused).
+// zzC04Try runs f; a panic of the code under test is an observation, not a
+// harness failure.
+func zzC04Try(f func()) (panicked string) {
+	defer func() {
+		if v := recover(); v != nil {
+			panicked = fmt.Sprintf("panic: %v", v)
+		}
+	}()
+	f()
+
+	return ""
+}
+
+// step performs one labelled edge; out is 0 (accepted), 1 (refused) or -1
+// (the call panicked).
 func (rn *zzC04Runner) step(s []int) (out int, concrete string) {
+	if pm := zzC04Try(func() { out, concrete = rn.step0(s) }); pm != "" {
+		return -1, fmt.Sprintf("operation %v: %s", s[:5], pm)
+	}
+
+	return out, concrete
+}
+
+func (rn *zzC04Runner) step0(s []int) (out int, concrete string) {
 	op, a, b, mask, fl := s[0], s[1], s[2], s[3], s[4]
 	switch op {
 	case 1:
@@ -644,7 +668,13 @@ func (rn *zzC04Runner) observe() (o *zzC04Obs) {
 	n := len(rn.names)
 	o.K = make([]int, n)
 	for i, name := range rn.names {
-		p, ok := st.FindByName(name)
+		var p *Persistent
+		var ok bool
+		if pm := zzC04Try(func() { p, ok = st.FindByName(name) }); pm != "" {
+			o.Bad = append(o.Bad, "FindByName("+name+"): "+pm)
+
+			continue
+		}
 		rn.nLook++
 		if ok != (p != nil) {
 			o.Bad = append(o.Bad, "FindByName ok/nil mismatch")
@@ -660,17 +690,21 @@ func (rn *zzC04Runner) observe() (o *zzC04Obs) {
 		o.Bad = append(o.Bad, "FindByName of an unknown name found something")
 	}
 	o.Rng = make([]int, n+1)
-	st.RangeByName(func(p *Persistent) (cont bool) {
-		i, known := rn.nameI[p.Name]
-		if !known || o.Rng[i-1] != 0 {
-			o.Rng[n]++
+	if pm := zzC04Try(func() {
+		st.RangeByName(func(p *Persistent) (cont bool) {
+			i, known := rn.nameI[p.Name]
+			if !known || o.Rng[i-1] != 0 {
+				o.Rng[n]++
+
+				return true
+			}
+			o.Rng[i-1] = rn.code(p)
 
 			return true
-		}
-		o.Rng[i-1] = rn.code(p)
-
-		return true
-	})
+		})
+	}); pm != "" {
+		o.Bad = append(o.Bad, "RangeByName: "+pm)
+	}
 	rn.nLook++
 
 	check := func(what string, p *Persistent, ok bool) (idx int) {
@@ -681,16 +715,23 @@ func (rn *zzC04Runner) observe() (o *zzC04Obs) {
 
 		return idx
 	}
-	for i := range rn.uni.IDs {
-		p, ok := st.Find(rn.idStr[i])
+	find := func(s string) (idx int) {
+		var p *Persistent
+		var ok bool
 		rn.nLook++
-		o.Fi = append(o.Fi, check("Find("+rn.idStr[i]+")", p, ok))
+		if pm := zzC04Try(func() { p, ok = st.Find(s) }); pm != "" {
+			o.Bad = append(o.Bad, "Find("+s+"): "+pm)
+
+			return -3
+		}
+
+		return check("Find("+s+")", p, ok)
+	}
+	for i := range rn.uni.IDs {
+		o.Fi = append(o.Fi, find(rn.idStr[i]))
 	}
 	for _, a := range rn.uni.Addrs {
-		s := rn.conc.addr(a).String()
-		p, ok := st.Find(s)
-		rn.nLook++
-		o.Fa = append(o.Fa, check("Find("+s+")", p, ok))
+		o.Fa = append(o.Fa, find(rn.conc.addr(a).String()))
 	}
 	for _, cid := range rn.uni.CIDs {
 		cs := ""
@@ -699,8 +740,15 @@ func (rn *zzC04Runner) observe() (o *zzC04Obs) {
 		}
 		row := make([]int, 0, len(rn.uni.Addrs))
 		for _, a := range rn.uni.Addrs {
-			row = append(row, rn.effCode(rn.rig.effective(cs, rn.conc.addr(a)), o))
+			var e zzC04Eff
 			rn.nLook++
+			if pm := zzC04Try(func() { e = rn.rig.effective(cs, rn.conc.addr(a)) }); pm != "" {
+				o.Bad = append(o.Bad, fmt.Sprintf("ApplyAdditionalFiltering(%q, %s): %s", cs, rn.conc.addr(a), pm))
+				row = append(row, -3)
+
+				continue
+			}
+			row = append(row, rn.effCode(e, o))
 		}
 		o.Ap = append(o.Ap, row)
 	}
@@ -933,16 +981,16 @@ type zzC04TClient struct {
 }
 
 type zzC04TLookup struct {
-	T    string     `json:"t"` // find | name | apply | range
-	ID   *zzC04ID   `json:"id,omitempty"`
-	N    string     `json:"n"`
-	A    int        `json:"a"`
-	R    string     `json:"r"`
-	RIDs []zzC04ID  `json:"rids"`
-	Vals [4]bool    `json:"vals"`
-	Svcs []string   `json:"svcs"`
-	Rng  []string   `json:"rng"`
-	Conc string     `json:"conc"`
+	T    string    `json:"t"` // find | name | apply | range
+	ID   *zzC04ID  `json:"id,omitempty"`
+	N    string    `json:"n"`
+	A    int       `json:"a"`
+	R    string    `json:"r"`
+	RIDs []zzC04ID `json:"rids"`
+	Vals [4]bool   `json:"vals"`
+	Svcs []string  `json:"svcs"`
+	Rng  []string  `json:"rng"`
+	Conc string    `json:"conc"`
 }
 
 type zzC04TLine struct {
@@ -1086,50 +1134,57 @@ func zzC04OneTrace(tb testing.TB, w *zzWriter, tr, nOps int, seed int64, dir str
 		qs = []zzC04TLookup{}
 		for i := 0; i < 8; i++ {
 			q := zzC04TLookup{RIDs: []zzC04ID{}, Svcs: []string{}, Rng: []string{}}
-			switch k := rng.Intn(10); {
-			case k < 3:
-				id := pool[rng.Intn(len(pool))]
-				q.T, q.ID, q.Conc = "find", &id, c.idString(id)
-				q.R, q.RIDs = absClient(rig.st.Find(q.Conc))
-			case k < 5:
-				a := addrs[rng.Intn(len(addrs))]
-				if rng.Intn(4) == 0 {
-					a = rng.Intn(256)
-				}
-				id := zzC04ID{K: "ip", X: a}
-				q.T, q.ID, q.Conc = "find", &id, c.idString(id)
-				q.R, q.RIDs = absClient(rig.st.Find(q.Conc))
-			case k < 6:
-				q.T, q.N = "name", names[rng.Intn(len(names))]
-				q.R, q.RIDs = absClient(rig.st.FindByName(q.N))
-			case k < 9:
-				cid, cs := zzC04NoID, ""
-				if rng.Intn(2) == 0 {
-					cid = zzC04ID{K: "cid", X: 1 + rng.Intn(5)}
-					cs = c.cid(cid.X)
-				}
-				a := addrs[rng.Intn(len(addrs))]
-				if rng.Intn(4) == 0 {
-					a = rng.Intn(256)
-				}
-				e := rig.effective(cs, c.addr(a))
-				q.T, q.ID, q.A, q.R, q.Vals, q.Svcs = "apply", &cid, a, e.Who, e.Vals, e.Svcs
-				q.Conc = fmt.Sprintf("cid=%q addr=%s ss=%v/%s", cs, c.addr(a), e.HasSS, e.SSName)
-				// The per-client safe-search object goes with the own values.
-				if e.HasSS && e.SSName != e.Who {
-					q.R = "?safesearch of " + e.SSName
-				}
-				q.N = ""
-				if e.HasSS {
-					q.N = "ss"
-				}
-			default:
-				q.T = "range"
-				rig.st.RangeByName(func(p *Persistent) (cont bool) {
-					q.Rng = append(q.Rng, p.Name)
+			k := rng.Intn(10)
+			pm := zzC04Try(func() {
+				switch {
+				case k < 3:
+					id := pool[rng.Intn(len(pool))]
+					q.T, q.ID, q.Conc = "find", &id, c.idString(id)
+					q.R, q.RIDs = absClient(rig.st.Find(q.Conc))
+				case k < 5:
+					a := addrs[rng.Intn(len(addrs))]
+					if rng.Intn(4) == 0 {
+						a = rng.Intn(256)
+					}
+					id := zzC04ID{K: "ip", X: a}
+					q.T, q.ID, q.Conc = "find", &id, c.idString(id)
+					q.R, q.RIDs = absClient(rig.st.Find(q.Conc))
+				case k < 6:
+					q.T, q.N = "name", names[rng.Intn(len(names))]
+					q.R, q.RIDs = absClient(rig.st.FindByName(q.N))
+				case k < 9:
+					cid, cs := zzC04NoID, ""
+					if rng.Intn(2) == 0 {
+						cid = zzC04ID{K: "cid", X: 1 + rng.Intn(5)}
+						cs = c.cid(cid.X)
+					}
+					a := addrs[rng.Intn(len(addrs))]
+					if rng.Intn(4) == 0 {
+						a = rng.Intn(256)
+					}
+					q.T, q.ID, q.A = "apply", &cid, a
+					e := rig.effective(cs, c.addr(a))
+					q.R, q.Vals, q.Svcs = e.Who, e.Vals, e.Svcs
+					q.Conc = fmt.Sprintf("cid=%q addr=%s ss=%v/%s", cs, c.addr(a), e.HasSS, e.SSName)
+					// The per-client safe-search object goes with the own values.
+					if e.HasSS && e.SSName != e.Who {
+						q.R = "?safesearch of " + e.SSName
+					}
+					q.N = ""
+					if e.HasSS {
+						q.N = "ss"
+					}
+				default:
+					q.T = "range"
+					rig.st.RangeByName(func(p *Persistent) (cont bool) {
+						q.Rng = append(q.Rng, p.Name)
 
-					return true
-				})
+						return true
+					})
+				}
+			})
+			if pm != "" {
+				q.R, q.Conc = "?"+pm, q.Conc+" "+pm
 			}
 			qs = append(qs, q)
 		}
@@ -1164,8 +1219,9 @@ func zzC04OneTrace(tb testing.TB, w *zzWriter, tr, nOps int, seed int64, dir str
 		switch k := rng.Intn(100); {
 		case k < 35:
 			tc, p := randClient()
-			err := rig.st.Add(rig.ctx, p)
-			ln.Op, ln.C, ln.Out, ln.Conc = "add", tc, outOf(err != nil), fmt.Sprintf("Add(%q %v) -> %v", p.Name, p.IDs(), err)
+			var err error
+			pm := zzC04Try(func() { err = rig.st.Add(rig.ctx, p) })
+			ln.Op, ln.C, ln.Out, ln.Conc = "add", tc, outOf(err != nil)+pm, fmt.Sprintf("Add(%q %v) -> %v %s", p.Name, p.IDs(), err, pm)
 		case k < 70:
 			tc, p := randClient()
 			old := present()
@@ -1200,12 +1256,14 @@ func zzC04OneTrace(tb testing.TB, w *zzWriter, tr, nOps int, seed int64, dir str
 					}
 				}
 			}
-			err := rig.st.Update(rig.ctx, old, p)
-			ln.Op, ln.N, ln.C, ln.Out, ln.Conc = "upd", old, tc, outOf(err != nil), fmt.Sprintf("Update(%q, %q %v) -> %v", old, p.Name, p.IDs(), err)
+			var err error
+			pm := zzC04Try(func() { err = rig.st.Update(rig.ctx, old, p) })
+			ln.Op, ln.N, ln.C, ln.Out, ln.Conc = "upd", old, tc, outOf(err != nil)+pm, fmt.Sprintf("Update(%q, %q %v) -> %v %s", old, p.Name, p.IDs(), err, pm)
 		case k < 80:
 			n := present()
-			ok := rig.st.RemoveByName(rig.ctx, n)
-			ln.Op, ln.N, ln.Out, ln.Conc = "rem", n, outOf(!ok), fmt.Sprintf("RemoveByName(%q) -> %v", n, ok)
+			var ok bool
+			pm := zzC04Try(func() { ok = rig.st.RemoveByName(rig.ctx, n) })
+			ln.Op, ln.N, ln.Out, ln.Conc = "rem", n, outOf(!ok)+pm, fmt.Sprintf("RemoveByName(%q) -> %v %s", n, ok, pm)
 		default:
 			a := addrs[rng.Intn(len(addrs))]
 			ln.Op, ln.A = "lease", a
